@@ -292,7 +292,9 @@ def do_collect(t: Any, reader: gcsim.IndepReader, root: str, tp_seen: str, overr
         viol.append({"key": "abort-undamaged", "what": f"collection raised {real['exc_type']} on an undamaged table at location {tp_seen!r}: {real['exc']}"})
     lost = sorted(set(deleted) & protected)
     if lost:
-        cls = "reachable" if set(lost) & set(reach) else "registered-by-live-transaction"
+        raw = reader.reachable_raw()
+        cls = ("reachable" if set(lost) & set(reach) & raw else "reachable-via-noncanonical-path" if set(lost) & set(reach)
+               else "registered-by-live-transaction")
         viol.append({"key": f"deleted-live:{cls}", "what": f"collect(grace={grace}) at table location {tp_seen!r} deleted {len(lost)} file(s) that are {cls}: {lost[:4]}"})
     _rows, problems = reader.read_everything() if problems_after is None else (0, problems_after)
     if problems:
